@@ -228,6 +228,7 @@ func C20(c *core.Ctx) {
 			j.Dirs = append(j.Dirs, kj.Dir{K: "price", Z: base - 1, C: s, P: price[s] * kj.PS, T: "CHF"})
 		}
 		j.Dirs = append(j.Dirs, kj.Dir{K: "trx", Z: base, Desc: "initial deposit", Bk: []kj.Booking{{Cr: "Equity:Equity", Dr: "Assets:Bank", C: "CHF", Q: 400 + rng.Intn(300)}}})
+		held := map[string]int{}
 		months := 3 + rng.Intn(3)
 		mstart := []int{18262, 18293, 18322, 18353, 18383, 18414, 18444}
 		for m := 0; m < months; m++ {
@@ -251,9 +252,26 @@ func C20(c *core.Ctx) {
 						j.Dirs = append(j.Dirs, kj.Dir{K: "trx", Z: z, Desc: "salary", Bk: []kj.Booking{{Cr: "Income:Salary", Dr: "Assets:Bank", C: "CHF", Q: 10 + rng.Intn(90)}}})
 					case 1:
 						j.Dirs = append(j.Dirs, kj.Dir{K: "trx", Z: z, Desc: "food", Bk: []kj.Booking{{Cr: "Assets:Bank", Dr: "Expenses:Food", C: "CHF", Q: 1 + rng.Intn(20)}}})
+					case 2:
+						// sell a position completely (its valued holding drops to exactly zero)
+						var cand []string
+						for _, s := range secs {
+							if held[s] > 0 {
+								cand = append(cand, s)
+							}
+						}
+						if len(cand) == 0 {
+							continue
+						}
+						s := cand[rng.Intn(len(cand))]
+						j.Dirs = append(j.Dirs, kj.Dir{K: "trx", Z: z, Desc: "sell all " + s, Bk: []kj.Booking{
+							{Cr: "Assets:Depot", Dr: "Equity:Equity", C: s, Q: held[s]},
+							{Cr: "Equity:Equity", Dr: "Assets:Bank", C: "CHF", Q: held[s] * 5}}})
+						held[s] = 0
 					default:
 						s := secs[rng.Intn(len(secs))]
 						q := 1 + rng.Intn(5)
+						held[s] += q
 						j.Dirs = append(j.Dirs, kj.Dir{K: "trx", Z: z, Desc: "buy " + s, Bk: []kj.Booking{
 							{Cr: "Equity:Equity", Dr: "Assets:Depot", C: s, Q: q},
 							{Cr: "Assets:Bank", Dr: "Equity:Equity", C: "CHF", Q: q * 5}}})
